@@ -47,6 +47,15 @@ def exact_reads_only(ctx, bodies, rule, error_mapping_ok=False):
             recv = at[0]
             wrapped = recv[0] == 'call' and recv[1] in ('std::io::Read::take', 'flate2::read::ZlibDecoder::new')
             ok, why = wrapped, 'read_to_end on %s' % (recv[1].split('::')[-2] + '::' + recv[1].split('::')[-1] if wrapped else 'the RAW input')
+        elif name in ('std::io::BufReader::new', 'std::io::BufReader::with_capacity'):
+            # a buffering wrapper reads ahead; what it has read ahead is lost when it is dropped.  Harmless only if it owns the input
+            # for the rest of the load - over a borrowed reader (`BufReader::new(&mut self.input)`, seed C14-g) the bytes after the
+            # record go missing whenever the source delivers them early, so the result depends on how the source fragments its data
+            op = c.args[-1]
+            ty = op['p'].get('ty', '') if op['k'] in ('copy', 'move') else op.get('ty', '')
+            ok = not ty.startswith('&')
+            why = 'buffering wrapper that owns its input (%s)' % ty[:40] if ok else \
+                'buffering wrapper over a BORROWED reader (%s): its read-ahead is discarded when it is dropped' % ty[:40]
         elif name in WRAP:
             ok, why = True, 'wrapper construction'
         elif error_mapping_ok and name in ('std::io::Error::kind', 'std::io::Error::raw_os_error') and \
